@@ -422,7 +422,7 @@ func c15emitDecision(c *Ctx, scn c15scn, obs c15obs) {
 			idx = append(idx, fmt.Sprint(s.Idx))
 		}
 		id := c.NewID()
-		term := fmt.Sprintf("DecCase %d %s %s %s %s %s %s", id, c15coqEdits(scn.Edits0), CoqBool(scn.Bos),
+		term := fmt.Sprintf("DecCase %d%%N %s %s %s %s %s %s", id, c15coqEdits(scn.Edits0), CoqBool(scn.Bos),
 			CoqBool(scn.Boe), CoqList(ev), CoqList(cmds), CoqList(idx))
 		c.Dist["decision_cases"]++
 		if n > 0 {
@@ -491,7 +491,7 @@ func c15one(c *Ctx, scn c15scn) bool {
 		}
 		if resumed || scn.Kind == "window" { // a failed StopThreads schedule is reported under its own key below
 			id := c.NewID()
-			term := fmt.Sprintf("ProtoCase %d [LSuspend 0 %d; %s; LThread 0; LThread 0] 0 %s", id, line, cmd, CoqBool(resumed))
+			term := fmt.Sprintf("ProtoCase %d%%N [LSuspend 0 %d; %s; LThread 0; LThread 0] 0 %s", id, line, cmd, CoqBool(resumed))
 			c.AddCase(id, term, scn, key, true)
 		}
 	}
@@ -1068,7 +1068,7 @@ func c15group(c *Ctx, scn c15scn) {
 		}
 		for i := range set {
 			id := c.NewID()
-			c.AddCase(id, fmt.Sprintf("ProtoCase %d [%s] %d true", id, strings.Join(sched, "; "), i), scn, key, true)
+			c.AddCase(id, fmt.Sprintf("ProtoCase %d%%N [%s] %d true", id, strings.Join(sched, "; "), i), scn, key, true)
 		}
 	}
 	c.Count(key, true, scn)
